@@ -7,6 +7,7 @@ import (
 	"go/types"
 	"sort"
 	"strings"
+	"time"
 
 	"golang.org/x/tools/go/ssa"
 )
@@ -98,6 +99,7 @@ type Exec struct {
 	splitVars  []string
 	assumeNoPanic bool
 	skipStub   *ssa.Function
+	deadline   time.Time
 	harness    string
 	funcs      map[string]int
 	finfo      map[*ssa.Function]*FuncInfo
@@ -696,6 +698,9 @@ func (x *Exec) execBlock(fr *Frame, b *ssa.BasicBlock, l *Loop) {
 		if x.steps > x.maxSteps {
 			notEncodable("step budget exceeded")
 		}
+		if x.steps%2000 == 0 && !x.deadline.IsZero() && time.Now().After(x.deadline) {
+			notEncodable("symbolic execution exceeded its time budget (state explosion) in %s", fr.fn)
+		}
 		x.execInstr(fr, ins)
 		fr.cur = g
 		fr.block = b
@@ -993,13 +998,28 @@ func (x *Exec) doAppend(fr *Frame, sv, tv Value, typ types.Type, p token.Pos) Va
 	// are written with guarded stores at every possible position and no new backing array is created; this keeps
 	// a slice that is appended to under many different guards a single object (same semantics as Go when the
 	// capacity suffices)
+	// a union of "nil" and exactly one backing array (the slice was first appended to under a guard): the array
+	// does not exist in the worlds of the nil alternative, so it can serve them too with length 0
+	if len(s.alts) > 1 {
+		var one *SliceAlt
+		cnt := 0
+		for i := range s.alts {
+			if s.alts[i].obj != nil {
+				one = &s.alts[i]
+				cnt++
+			}
+		}
+		if cnt == 1 {
+			s = VSlice{[]SliceAlt{{g: ts.True, obj: one.obj, path: one.path, off: one.off, len: mkIte(one.g, one.len, mkConst(64, 0)), cap: one.cap}}}
+		}
+	}
 	if len(s.alts) == 1 && s.alts[0].obj != nil {
 		a := s.alts[0]
 		lo, hi := a.len.lo, a.len.hi
 		if a.len.isConst() {
 			lo, hi = a.len.sval(), a.len.sval()
 		}
-		if lo >= 0 && hi >= lo && hi-lo <= 64 && int(hi)+len(tcells) <= a.cap {
+		if lo >= 0 && hi >= lo && hi-lo <= 300 && int(hi)+len(tcells) <= a.cap {
 			for pos := lo; pos <= hi; pos++ {
 				at := mkEq(a.len, mkConst(64, uint64(pos)))
 				if at.isFalse() {
@@ -1018,19 +1038,11 @@ func (x *Exec) doAppend(fr *Frame, sv, tv Value, typ types.Type, p token.Pos) Va
 	}
 	scells, slen := x.sliceCells(s)
 	ncap := len(scells) + len(tcells)
-	if ncap < 8 {
-		ncap = 8
-	} else {
-		ncap *= 2
-	}
-	if slen.isConst() && tlen.isConst() {
-		// Go-like growth so that subsequent appends can be in place
-		ncap = int(slen.sval() + tlen.sval())
-		if ncap < 4 {
-			ncap = 4
-		} else {
-			ncap = ncap * 2
-		}
+	// generous capacity so that later appends (often under many different guards) stay in place and the slice
+	// remains one object; cap() itself is not observable in the code under test
+	ncap *= 2
+	if ncap < 256 {
+		ncap = 256
 	}
 	arr := x.newArray(elem, ncap)
 	e := arr.val.(VArray).e
